@@ -93,7 +93,21 @@ def run(facts, R):
     dp = facts.body("<%s as std::ops::Drop>::drop" % GUARD)
     ds = Sym(dp)
     hookcalls = [(i, t) for i, t in dp.calls() if t["callee"]["name"] in ("call", "call_mut", "call_once") and "hooks" in render(ds.op(t["args"][0]))]
-    R.check(len(hookcalls) == 1 and in_cycle(dp, hookcalls[0][0]), "guard-owns-disconnect", dp.path, "Drop runs every hook", "hook call sites in Drop: %d" % len(hookcalls), dp.span, "for hook in hooks { hook(peer_id) }")
+    if len(hookcalls) == 1:
+        R.check(in_cycle(dp, hookcalls[0][0]), "guard-owns-disconnect", dp.path, "Drop runs every hook", "hook call sites in Drop: %d" % len(hookcalls), dp.span, "for hook in hooks { hook(peer_id) }")
+    else:
+        # several kinds of hook (an enum of callback shapes): every element the loop takes from the list is called, whatever its kind - from
+        # the `next() is Some` edge each way back to the loop head crosses a hook call
+        nexts = [(i, t) for i, t in dp.calls() if t["callee"]["name"] == "next" and t["callee"].get("trait") == "std::iter::Iterator"]
+        some_edges = []
+        for x in sorted(dp.live_blocks()):
+            fs_ = facts_at(dp, ds, facts, x)
+            if any(f_["val"] == "Some" and is_call(f_["expr"], "next") for f_ in fs_) and any(not any(f2["val"] == "Some" and is_call(f2["expr"], "next") for f2 in facts_at(dp, ds, facts, q)) for q in dp.preds().get(x, []) if q in dp.live_blocks()):
+                some_edges.append((x, 0))
+        w_ = must_cross(dp, some_edges, [term_pt(dp, i) for i, _ in nexts] + return_points(dp), [term_pt(dp, i) for i, _ in hookcalls], after_start=False) if (some_edges and nexts and hookcalls) else [0]
+        R.check(bool(hookcalls) and len(nexts) == 1 and all(in_cycle(dp, i) for i, _ in hookcalls) and w_ is None, "guard-owns-disconnect", dp.path, "Drop runs every hook",
+                "the loop over the disconnect hooks can take a hook from the list and go on without calling it (%d call sites): that callback is not told about this "
+                "connection's end" % len(hookcalls), dp.span, "every element is called", path=w_ if isinstance(w_, list) and w_ != [0] else None)
     for i, t in hookcalls:
         a = render_n(ds.op(t["args"][1]))
         R.check("arg1.peer_id" in a, "guard-owns-disconnect", dp.path, "hooks get this connection's peer id", "hook called with %s" % a, t.get("span"))
